@@ -254,11 +254,128 @@ def cross_connection_keys(T):
             os.urandom = real_urandom
 
 
+def app_send_wrapper(T, ctx):
+    """WebSocketApp.send / send_text / send_bytes are thin wrappers: the frame carries the opcode and payload the caller asked for"""
+    import websocket
+    from websocket._abnf import ABNF
+    cases = [("send", (b"raw-bytes", ABNF.OPCODE_TEXT), 1, b"raw-bytes"), ("send", (bytearray(b"ba"), ABNF.OPCODE_TEXT), 1, b"ba"),
+             ("send", ("text",), 1, b"text"), ("send", (b"\x00\x01", ABNF.OPCODE_BINARY), 2, b"\x00\x01"), ("send", ("Zo\u00eb", ABNF.OPCODE_TEXT), 1, "Zo\u00eb".encode()),
+             ("send", (b"", ABNF.OPCODE_TEXT), 1, b""), ("send", (b"p", ABNF.OPCODE_PING), 9, b"p"), ("send_text", ("hello",), 1, b"hello"), ("send_bytes", (b"\xff\x00",), 2, b"\xff\x00")]
+    for meth, args, want_op, want_payload in cases:
+        ks = KeySource("bytes", random.Random(5))
+        ws, s = connected_ws([], get_mask_key=ks)
+        app = websocket.WebSocketApp("ws://sim.test/")
+        app.sock = ws
+        mark = len(s.written)
+        try:
+            getattr(app, meth)(*args)
+            exc = None
+        except Exception as e:
+            exc = exn_class(e)
+        wire = bytes(s.written[mark:])
+        T.case(("app-wrapper", meth, str(args)[:30]), nontrivial=True, bucket="app-wrapper")
+        if ctx.spec and not exc:
+            f = ctx.spec.run(["decode " + hx(wire)])[0].split(":")
+            ok = f[0] == "F" and f[1] == "1" and int(f[3]) == want_op and f[5] == digest(want_payload)
+        else:
+            ok = exc is None
+        if not ok:
+            T.fail("spec", {"kind": "app-wrapper", "method": meth, "args": str(args)}, f"FIN frame, opcode {want_op}, payload {want_payload!r}", f"exc={exc} wire={wire[:16].hex()}",
+                   {"site": "WebSocketApp." + meth, "cls": "wire-format", "wrapper": True},
+                   what="the WebSocketApp wrapper did not put the requested opcode / payload on the wire")
+            return
+
+
+def wouldblock_writes(T, ctx):
+    """A transport that reports "would block" on writes (non-blocking / TLS socket with a timeout) while the peer reads slowly: the frame
+    still reaches the wire whole and send() returns its length (real socketpair, small send buffer, a reader that stalls)."""
+    import socket as so
+    import threading
+    import time
+    import websocket
+
+    class WB:
+        def __init__(self, real):
+            self.real = real
+
+        def send(self, data):
+            return self.real.send(data, so.MSG_DONTWAIT)        # BlockingIOError(EAGAIN) when the buffer is full
+
+        def recv(self, n):
+            return self.real.recv(n)
+
+        def gettimeout(self):
+            return 0.05
+
+        def settimeout(self, t):
+            pass
+
+        def fileno(self):
+            return self.real.fileno()
+
+        def close(self):
+            self.real.close()
+
+        def shutdown(self, how=None):
+            pass
+
+    for size, stall in ((300000, 0.3), (70000, 0.15)):
+        a, b = so.socketpair()
+        a.setsockopt(so.SOL_SOCKET, so.SO_SNDBUF, 4096)
+        got = bytearray()
+        done = threading.Event()
+
+        def reader():
+            time.sleep(stall)                  # the peer stops reading for several send timeouts
+            b.settimeout(2.0)
+            try:
+                while not done.is_set() or True:
+                    chunk = b.recv(65536)
+                    if not chunk:
+                        break
+                    got.extend(chunk)
+            except OSError:
+                pass
+        ws = websocket.WebSocket(get_mask_key=lambda n: b"\x00" * n)
+        ws.sock = WB(a)
+        ws.connected = True
+        out = {}
+
+        def sender():
+            try:
+                out["ret"] = ws.send(lcg_bytes(size, 9), 2)
+            except Exception as e:
+                out["exc"] = exn_class(e)
+        tr = threading.Thread(target=reader, daemon=True)
+        ts = threading.Thread(target=sender, daemon=True)
+        tr.start()
+        ts.start()
+        ts.join(8.0)
+        hung = ts.is_alive()
+        try:
+            a.shutdown(so.SHUT_WR)
+        except OSError:
+            pass
+        tr.join(3.0)
+        a.close()
+        b.close()
+        want_len = 2 + 8 + 4 + size
+        T.case(("wouldblock-write", size), nontrivial=True, bucket="wouldblock-write", sample={"size": size, "ret": out.get("ret"), "exc": out.get("exc"), "wire_bytes": len(got)})
+        good = (not hung and out.get("ret") == want_len and len(got) == want_len and bytes(got[14:]) == lcg_bytes(size, 9) and got[0] == 0x82)
+        if not good:
+            T.fail("spec", {"kind": "wouldblock-write", "size": size}, f"send() returns {want_len} and the whole frame is on the wire",
+                   f"hung={hung} ret={out.get('ret')} exc={out.get('exc')} wire={len(got)} bytes", {"site": "WebSocket.send", "cls": "wouldblock-write"},
+                   what="under would-block writes with a slow reader the frame did not reach the wire whole")
+            return
+
+
 def run(ctx, only=None):
     T = Tally()
     rng = random.Random(ctx.seed)
     if only is None:
         cross_connection_keys(T)
+        app_send_wrapper(T, ctx)
+        wouldblock_writes(T, ctx)
     scs = [materialise(s) for s in (only if only is not None else scenarios(ctx.tier, rng))]
     gots = [do_send(s, random.Random(i * 7919 + ctx.seed)) for i, s in enumerate(scs)]
     spec_reqs, model_reqs, model_idx = [], [], []
@@ -320,6 +437,12 @@ def search(ctx):
 
 def replay(ctx, sc):
     T = Tally()
+    if sc.get("kind") == "wouldblock-write":
+        wouldblock_writes(T, ctx)
+        return T.failures[0] if T.failures else None
+    if sc.get("kind") == "app-wrapper":
+        app_send_wrapper(T, ctx)
+        return T.failures[0] if T.failures else None
     if sc.get("kind") == "cross-connection":
         cross_connection_keys(T)
         return T.failures[0] if T.failures else None
